@@ -555,9 +555,13 @@ func writeEvidence(prop, tier string, seed int, ps *propSpec, units []*Unit, rep
 			"explanation":              "every obligation is a verification condition generated from /repo's current go/ssa and discharged (unsat of its negation) by an SMT solver",
 		},
 	}
-	os.MkdirAll("/verif/evidence", 0o755)
+	dir := "/verif/evidence"
+	if d := os.Getenv("GOVC_EVIDENCE_DIR"); d != "" {
+		dir = d // used by the self-test runner so that mutant runs do not overwrite real evidence
+	}
+	os.MkdirAll(dir, 0o755)
 	out, _ := json.MarshalIndent(ev, "", " ")
-	os.WriteFile(filepath.Join("/verif/evidence", prop+".json"), append(out, '\n'), 0o644)
+	os.WriteFile(filepath.Join(dir, prop+".json"), append(out, '\n'), 0o644)
 }
 
 // tryReplay attempts to reproduce a failed obligation on the real code; see replay.go.
